@@ -405,17 +405,17 @@ def res_kind_only(line, txt):
     return ' '.join(f[:2])
 
 PROPS['C02'] = P_('well-formed ordered tree', 'arena', plan(G_COMMON_QUICK, G_COMMON_THOROUGH),
-                  observable=mk_obs(lambda d: d.structure()), internal=[], oracles=['C02.'], special='tree')
+                  observable=mk_obs(lambda d: d.structure()), internal=[], oracles=['C02.'], special='tree', requires=['markup', 'texts'])
 PROPS['C03'] = P_('markup mirrors the logical structure', 'tok,arena', plan(G_COMMON_QUICK, G_COMMON_THOROUGH),
                   observable=obs_reject_wellformed(lambda d: d.markup()), internal=[('TK', tok_strings), ('TKRES', res_kind_only)], special='markup')
 PROPS['C04'] = P_('character data decoding', 'arena,ev',
                   plan(G_COMMON_QUICK[:2] + [['pieces-text', 2]], G_COMMON_THOROUGH[:3] + [['pieces-text', 4]]),
-                  observable=mk_obs(lambda d: d.texts()), internal=[('EV F', strip_storage)], special='pieces_text')
+                  observable=mk_obs(lambda d: d.texts()), internal=[('EV F', strip_storage)], special='pieces_text', requires=['markup'])
 PROPS['C05'] = P_('attributes', 'arena,ev',
                   plan(G_COMMON_QUICK[:2] + [['pieces-attr', 2]], G_COMMON_THOROUGH[:3] + [['pieces-attr', 4]]),
-                  observable=mk_obs(lambda d: d.attributes()), internal=[('EV V', strip_storage)], special='pieces_attr')
+                  observable=mk_obs(lambda d: d.attributes()), internal=[('EV V', strip_storage)], special='pieces_attr', requires=['markup'])
 PROPS['C06'] = P_('namespaces', 'arena', plan(G_COMMON_QUICK, G_COMMON_THOROUGH),
-                  observable=mk_obs(lambda d: d.namespaces()), internal=[('V', strip_storage), 'O'], special='ns_scale')
+                  observable=mk_obs(lambda d: d.namespaces()), internal=[('V', strip_storage), 'O'], special='ns_scale', requires=['markup'])
 PROPS['C07'] = P_('entity reference = replacement text', 'arena', plan([['model', 1500, 10]], [['model', 60000, 10]]),
                   observable=obs_entities(lambda d: d.content()), special='hoist')
 PROPS['C08'] = P_('ill-formed documents are rejected', 'tok,arena', plan(G_COMMON_QUICK, G_COMMON_THOROUGH),
@@ -432,7 +432,7 @@ PROPS['C11'] = P_('navigation agrees with the tree', 'arena,api,it', plan(G_COMM
 PROPS['C12'] = P_('name lookups', 'arena,api,lk', plan(G_COMMON_QUICK[:3], G_COMMON_THOROUGH[:4]),
                   observable=obs_api(['LK', 'AE', 'NQ', 'AQ']), oracles=['C12.'], special='lookups')
 PROPS['C13'] = P_('source ranges', 'arena,api', plan(G_COMMON_QUICK[:3], G_COMMON_THOROUGH[:4]),
-                  observable=mk_obs(lambda d: d.ranges()), oracles=['C13.'], special='shift')
+                  observable=mk_obs(lambda d: d.ranges()), oracles=['C13.'], special='shift', requires=['structure', 'texts'])
 PROPS['C14'] = P_('text positions and error reports', 'arena,tp', plan(G_COMMON_QUICK + [['dtdjunk', 720]], G_COMMON_THOROUGH + [['dtdjunk', 20000]]),
                   observable=obs_errors, impl_checks=[chk_err_pos], special='errshift')
 PROPS['C15'] = P_('nodes_limit', 'arena', plan([['model', 600, 10]], [['model', 6000, 10], ['mut', 3000, 400]]),
@@ -442,7 +442,7 @@ PROPS['C16'] = P_('allow_dtd', 'arena', plan([['model', 1500, 20], ['mut', 800, 
 PROPS['C17'] = P_('node identity, ordering, hashing', 'arena,api', plan([['model', 300, 0]], [['model', 3000, 0]]),
                   observable=obs_api(['DQ']), special='ord')
 PROPS['C18'] = P_('borrowed strings', 'arena', plan(G_COMMON_QUICK[:3], G_COMMON_THOROUGH[:4]),
-                  observable=mk_obs(lambda d: d.storages()), impl_checks=[chk_borrowed], special='storage')
+                  observable=mk_obs(lambda d: d.storages()), impl_checks=[chk_borrowed], special='storage', requires=['structure', 'texts', 'attributes'])
 PROPS['C19'] = P_('determinism and features', 'arena', plan([['model', 800, 20], ['fixtures', 4000]], [['model', 10000, 20], ['fixtures', 20000], ['mut', 5000, 400]]),
                   observable=None, internal=[], special='features')
 PROPS['C20'] = P_('immutable, thread-shareable, no unsafe', 'arena,api', plan([['model', 200, 0]], [['model', 6000, 0]]),
@@ -541,6 +541,18 @@ def with_limits(cases, seed):
         out.append(' '.join(f))
     return out
 
+def foreign_disagreement(cfg, il, ml, txt):
+    """name of a coarser projection, owned by another property, on which implementation and model
+    disagree (then this property's finer projection differs trivially and is not compared), or None"""
+    if not cfg.get('requires'):
+        return None
+    di, dm = Dump(il, txt), Dump(ml, txt)
+    if di.ok and dm.ok:
+        for nm in cfg['requires']:
+            if getattr(di, nm)() != getattr(dm, nm)():
+                return nm
+    return None
+
 def run_property(pid, cfg, tier, seed, exe, chk, violations, broken, notes, replay):
     from specials import SPECIALS
     cases = chk.corpus_cases(pid)
@@ -596,6 +608,17 @@ def run_property(pid, cfg, tier, seed, exe, chk, violations, broken, notes, repl
                 add_violation(violations, kind='property-oracle', what=l, case=info, concrete=True)
         stats['compared'] += 1
         di = dm = None
+        # precision: a disagreement between implementation and model on a coarser projection that
+        # another property owns (the markup skeleton: C03/C07/C08; the text nodes: C04; the whole
+        # node structure: C02) makes this property's finer projection differ trivially; the case is
+        # then left to the owner and to this property's own executable oracles (already evaluated above)
+        foreign = foreign_disagreement(cfg, il, ml, txt)
+        if foreign:
+            stats['foreign_disagreements'] = stats.get('foreign_disagreements', 0) + 1
+            if len(notes) < 50:
+                notes.append(f'input {cid}: implementation and model disagree on {foreign}(), which another property owns; '
+                             f'comparison on this property\'s projection skipped (its executable oracles were evaluated)')
+            continue
         if cfg.get('observable'):
             di, dm = Dump(il, txt), Dump(ml, txt)
             a, b = cfg['observable'](di, dm, il, ml)
